@@ -26,6 +26,24 @@ INJECT = {"IGNORE": (2, b"\0\0\0\0"), "DEBUG": (4, b"\0" + b"\0\0\0\0" * 2), "UN
           "UNKNOWN": (200, b"")}
 
 
+KEX_TYPES = {20, 21} | set(range(30, 50))
+# types with a handler somewhere in paramiko (transport, auth, channel tables) and the transport-layer ones: injected
+# at every position; the rest at one random position per direction (thorough: everywhere)
+IMPORTANT = {1, 2, 3, 4, 5, 6, 7, 50, 51, 52, 53, 60, 61, 63, 66, 80, 81, 82} | set(range(90, 101))
+
+
+def type_payload(rng, t):
+    if t == 80:
+        return L.msg(80, "pv@verif", True).asbytes()[1:]
+    if t == 90:
+        return L.msg(90, "session", 0, 32768, 32768).asbytes()[1:]
+    if t == 1:
+        return L.msg(1, 11, "bye", "").asbytes()[1:]
+    if t == 4:
+        return L.msg(4, True, "dbg", "").asbytes()[1:]
+    return rng.randbytes(rng.choice([0, 0, 4, 8, rng.randrange(0, 24)]))
+
+
 def handshake(ctx, kex, strict_c, strict_s, edit, short_timeout=False):
     """one handshake through the relay; returns per-peer observations"""
     from paramiko import Transport
@@ -86,7 +104,8 @@ def handshake(ctx, kex, strict_c, strict_s, edit, short_timeout=False):
             "active": 1 if alive else 0,
             "err": "-" if alive else L.exc_class(t.saved_exception) if t.saved_exception is not None
             else L.exc_class(client_exc) if (name == "client" and client_exc is not None
-                                             and "imeout" not in str(client_exc)) else "ended",
+                                             and "imeout" not in str(client_exc)
+                                             and "Negotiation failed" not in str(client_exc)) else "ended",
             "site": exc_site(t.saved_exception) if t.saved_exception is not None
             else exc_site(client_exc) if (name == "client" and client_exc is not None) else "-",
             "done": 1 if t.initial_kex_done else 0,
@@ -214,7 +233,9 @@ def run(ctx):
     ctx.rule = ("handshakes through a plaintext man in the middle: injection of IGNORE/DEBUG/UNIMPLEMENTED/unknown/"
                 "duplicate before packet #i, or deletion of packet #i, for every i of the initial handshake, both "
                 "directions, strict on/off per side, per kex method; distinct = (kex, strict pair, edit, direction, "
-"position); non-trivial = the edit changes what a peer receives before NEWKEYS. Plus sessions with three "
+"position); every non-kex message type 1..255 injected into a strict exchange in both directions (types with "
+                "a handler anywhere: every position; others: one random position), the victim's plaintext reactions "
+                "hidden from the other side; non-trivial = the edit changes what a peer receives before NEWKEYS. Plus sessions with three "
                 "re-exchanges (either side initiating) against a specification-conformant peer whose later KEXINITs "
                 "omit, repeat or newly add the kex-strict marker")
     ctx.trust("pv/lib_runloop.py Relay/Tap (plaintext packet parser, packetizer taps)",
@@ -241,6 +262,16 @@ def run(ctx):
                         jobs.append((kex, sc, ss, ("inject", nm, d, pos)))
                     if (sc == ss and (kex == kexes[0] or ctx.thorough)):
                         jobs.append((kex, sc, ss, ("delete", "-", d, pos)))
+    # every message type that is not a kex message, injected into a strict initial exchange, both directions; the man
+    # in the middle also swallows whatever the victim answers in plaintext, so a reaction cannot give the edit away
+    kex0 = kexes[0]
+    for d in ("c2s", "s2c"):
+        for t in range(1, 256):
+            if t in KEX_TYPES:
+                continue
+            positions = [0, 1, 2] if (t in IMPORTANT or ctx.thorough) else [rng.randrange(3)]
+            for pos in positions:
+                jobs.append((kex0, True, True, ("inject", "TYPE:%d" % t, d, pos, type_payload(rng, t).hex())))
 
     results = [None] * len(jobs)
     lock = threading.Lock()
@@ -257,12 +288,16 @@ def run(ctx):
             kex, sc, ss, ed = jobs[i]
 
             def edit(direction, idx, t, pkt, ed=ed):
+                if ed is not None and ed[1].startswith("TYPE:") and direction != ed[2] and t not in KEX_TYPES:
+                    return []            # the victim's plaintext reaction never reaches the other side
                 if ed is None or direction != ed[2] or idx != ed[3]:
                     return [pkt]
                 if ed[0] == "delete":
                     return []
                 if ed[1] == "DUPLICATE":
                     return [pkt, pkt]
+                if ed[1].startswith("TYPE:"):
+                    return [L.plain_packet(int(ed[1][5:]), bytes.fromhex(ed[4])), pkt]
                 t2, pl = INJECT[ed[1]]
                 return [L.plain_packet(t2, pl), pkt]
 
@@ -294,7 +329,7 @@ def run(ctx):
         victim = None if ed is None else ("server" if ed[2] == "c2s" else "client")
         case = {"kex": kex, "strict_client": sc, "strict_server": ss, "edit": ed}
         ctx.case((kex, sc, ss, ed), ed is not None)
-        ctx.dist("edit:" + ("none" if ed is None else ed[0] + ":" + ed[1]))
+        ctx.dist("edit:" + ("none" if ed is None else ed[0] + ":" + ("TYPE" if ed[1].startswith("TYPE:") else ed[1])))
         ctx.dist("strict:%d%d" % (sc, ss))
         if i % 37 == 0:
             ctx.sample({"case": case, "client_rx": [r[:2] for r in res["client"]["rx"]],
